@@ -143,15 +143,15 @@ theorem listed_path_same_as_added (sent : List ApiAttr) (stored : List Attribute
 
 /-- the next hop given to AddPath is not shown by ListPath (nor are ORIGINATOR_ID / CLUSTER_LIST) -/
 theorem next_hop_not_listed :
-    run current (.grpc (.prefix (.ip4 167772160) 8) [.nextHop (.ip4 3221225985)]) =
-      .listed (.prefix (.ip4 167772160) 8) [.origin 0, .asPath []] ∧
-    Spec.check (.grpc (.prefix (.ip4 167772160) 8) [.nextHop (.ip4 3221225985)])
-      (.listed (.prefix (.ip4 167772160) 8) [.origin 0, .asPath []]) = .fail "listed-path-lacks-next-hop" := by
+    run current (.grpc (.prefix (.ip4 167772160) 8) [.nextHop (.ip4 3221225985)] []) =
+      .listed (.prefix (.ip4 167772160) 8) [.origin 0, .asPath []] none ∧
+    Spec.check (.grpc (.prefix (.ip4 167772160) 8) [.nextHop (.ip4 3221225985)] [])
+      (.listed (.prefix (.ip4 167772160) 8) [.origin 0, .asPath []] none) = .fail "listed-path-lacks-next-hop" := by
   refine ⟨?_, by decide⟩
   simp [run, netFromApi, ApiNlri.strict, hostBitsClear, netFromApi0, current, localPath, convertAll, fromApi,
     ApiAttr.strict, fromApi0, AStr.parse4, newWithBin, canonicalFlags, Attribute.valueLen, maxAttrValue,
     beN, keepAttrs, Out.map, originIgp, emptyAsPath, modelledCode, listAttrs, toApi, Attribute.value,
-    Attribute.binary, asPathToSegs, nlriToApi]
+    Attribute.binary, asPathToSegs, nlriToApi, rpkiShown]
 
 /-- ... and the listed form re-imports to the same stored value. -/
 theorem accepted_reimports_unchanged (x : ApiAttr) (a : Attribute) (hr : x.inRange = true)
